@@ -160,6 +160,21 @@ def _is_generator_function(fn):
     return cached
 
 
+def _dict_method(data, name, args, kwargs):
+    """A method of builtin dict applied to the data of an instance of a pedal class that derives dict."""
+    if any(isinstance(a, Opaque) or a is UNKNOWN for a in args):
+        raise Inconclusive('fdeval: dict.%s on a non-concrete operand' % name)
+    try:
+        out = getattr(data, name)(*args, **kwargs)
+    except KeyError as ex:
+        raise Raised('KeyError', str(ex))
+    except TypeError as ex:
+        raise Raised('TypeError', str(ex))
+    if name in ('keys', 'values', 'items'):
+        return list(out)
+    return out
+
+
 def truth(v):
     """True / False / None (unknown)."""
     if v is UNKNOWN:
@@ -286,6 +301,8 @@ class FD:
                 fn = b.methods.get(name) if hasattr(b, 'methods') else None
                 if fn is not None:
                     return self.call_function(fn, list(a), k, bound_self=obj)
+            if isinstance(obj, Obj) and '__dictdata__' in obj.attrs and hasattr(dict, name):
+                return _dict_method(obj.attrs['__dictdata__'], name, a, k)
             if name == '__init__' and external:
                 return None
             raise Inconclusive('fdeval: super().%s of %s' % (name, cls.name))
@@ -367,6 +384,12 @@ class FD:
                     o = Obj(cls.name)
                 o.attrs['__classdef__'] = cls
                 init = self.class_method(o, '__init__')
+                if init is None and any(_dotted(b_) == 'dict' for b_ in cls.bases) and 'dict' not in self.calls:
+                    # a table class deriving builtin dict without a constructor of its own: its entries
+                    try:
+                        o.attrs['__dictdata__'] = dict(*args, **kwargs)
+                    except (TypeError, ValueError) as ex:
+                        raise Raised(type(ex).__name__, str(ex))
                 if init is not None:
                     self._mods.append(cmod)
                     try:
@@ -585,6 +608,8 @@ class FD:
             m = it.attrs.get('method:__iter__') or self.class_method(it, '__iter__')
             if m is not None:
                 return self.iterate(m(), what)
+            if '__dictdata__' in it.attrs:
+                return list(it.attrs['__dictdata__'])
             g = it.attrs.get('method:__getitem__') or self.class_method(it, '__getitem__')
             if g is not None and '__classdef__' in it.attrs:
                 out = []
@@ -886,6 +911,11 @@ class FD:
         if isinstance(base, Obj):
             if 'method:__getitem__' in base.attrs:
                 return base.attrs['method:__getitem__'](idx)
+            if '__classdef__' in base.attrs and '__dictdata__' in base.attrs:
+                m_ = self.class_method(base, '__getitem__')
+                if m_ is not None:
+                    return m_(idx)
+                return _dict_method(base.attrs['__dictdata__'], '__getitem__', (idx,), {})
             raise Raised('TypeError', "%r object is not subscriptable" % base._name)
         if isinstance(base, (set, frozenset, int, float, bool, type(None))):
             raise Raised('TypeError', "%r object is not subscriptable" % type(base).__name__)
@@ -1052,6 +1082,7 @@ class FD:
         """isinstance / issubclass where the harness models neither: decided for concrete values against builtin types
         and for instances of pedal classes against pedal classes; anything else is outside the fragment."""
         ts = t if isinstance(t, tuple) else (t,)
+        ts = tuple(type if x is _BUILTINS.get('type') else x for x in ts)     # the name `type` used as a class
         py = tuple(x for x in ts if isinstance(x, type))
         pedal = [x for x in ts if isinstance(getattr(x, '_fd_class', None), ast.ClassDef)]
         if len(py) + len(pedal) != len(ts):
@@ -1380,6 +1411,8 @@ class FD:
                 return m(*args, **kwargs)
             if '__unknown_method__' in recv.attrs:
                 return recv.attrs['__unknown_method__'](attr, *args, **kwargs)
+            if '__dictdata__' in recv.attrs and hasattr(dict, attr):
+                return _dict_method(recv.attrs['__dictdata__'], attr, args, kwargs)
             if recv.attrs.get('__closed__'):
                 raise Raised('AttributeError', '%r object has no attribute %r' % (recv._name, attr))
         if recv is UNKNOWN:
